@@ -12,6 +12,7 @@ skip / take / chain / zip / rev / copied / cloned / filter(it, ..)), plus two in
 `step` yields (state, item | None, advanced iterator).  Closures are invoked through the path enumerator (they may
 fork on symbolic data and have effects, which stay in program order because everything is lazy).
 """
+import re
 from .symex import _call_closure_paths, _fork_bool, _ret, Unanalysable, UNIT
 
 NONE = ("adt", "core::option::Option", "None", ())
@@ -466,6 +467,41 @@ def m_next(ex, st, call, args):
     return gen()
 
 
+def _as_citer(ex, st, T):
+    """a plain iterator over a concrete collection (iter / iter_mut / an already started one) as ("citer", items, pos), else None"""
+    T = _strip(T)
+    if T[0] == "citer":
+        return T
+    if T[0] == "call" and method(T[1]) in ("iter", "iter_mut") and len(T[2]) == 1:
+        a = T[2]
+        items = _array_items(ex, st, a[0])
+        if items is None:
+            return None
+        if method(T[1]) == "iter_mut" and ex.live_iter_mut and a[0][0] == "ref":
+            root, path = a[0][1]
+            return ("citer", tuple(("ref", (root, tuple(path) + (("idx", ("const", i)),)), "mut") for i in range(len(items))), 0)
+        return ("citer", tuple(("&", x) for x in items), 0)
+    return None
+
+
+def m_next_back(ex, st, call, args):
+    """DoubleEndedIterator::next_back on a plain iterator over a concrete collection"""
+    T, setter = _iter_arg(ex, st, args[0])
+    c = _as_citer(ex, st, T)
+    if c is None:
+        return NotImplemented
+    items, pos = c[1], c[2]
+
+    def gen():
+        if pos < len(items):
+            setter(st, ("citer", tuple(items[:-1]), pos))
+            yield st, "ret", some(items[-1])
+        else:
+            setter(st, c)
+            yield st, "ret", NONE
+    return gen()
+
+
 def _consume(ex, st, T, on_item, on_end, acc):
     """generic driver: for each item on_item(state, acc, item) yields (state, acc', stop_value|None)"""
     def rec(s, cur, acc_):
@@ -577,7 +613,30 @@ def consumer(ex, st, call, args):
                     else:
                         yield s3, (acc if name == "Greater" else (it,)), None
         return _consume(ex, st, T, on_item, lambda s, acc: _ret(s, NONE if acc is None else some(acc[0])), None)
-    if m == "collect" and len(args) == 1 and "Vec" in str(call.raw.get("dest_ty", "")):
+    dest_ty = str(call.raw.get("dest_ty", ""))
+    if m == "collect" and len(args) == 1 and re.match(r"^core::result::Result<\s*(alloc::vec::)?Vec<", dest_ty):
+        # collecting Results: the first Err ends the iteration and is the result, otherwise Ok(vec of the payloads)
+        def on_item(s, acc, it):
+            v = ex.canon(s, it)
+            if v[0] == "adt" and v[1] == "core::result::Result":
+                if v[2] == "Ok":
+                    yield s, acc + (v[3][0],), None
+                else:
+                    yield s, acc, ("adt", "core::result::Result", "Err", (v[3][0],))
+                return
+            d = ("discr", v, "core::result::Result")
+            for val, name in ((0, "Ok"), (1, "Err")):
+                if d in s.pc and s.pc[d] != val:
+                    continue
+                s2 = s.clone()
+                s2.assume(d, val)
+                payload = ("field", ("as", v, name), "0")
+                if name == "Ok":
+                    yield s2, acc + (payload,), None
+                else:
+                    yield s2, acc, ("adt", "core::result::Result", "Err", (payload,))
+        return _consume(ex, st, T, on_item, lambda s, acc: _ret(s, ("adt", "core::result::Result", "Ok", (("call", "vec!", (("array", acc),)),))), ())
+    if m == "collect" and len(args) == 1 and re.match(r"^(alloc::vec::)?Vec<", dest_ty):
         return _consume(ex, st, T, lambda s, acc, it: iter([(s, acc + (it,), None)]),
                         lambda s, acc: _ret(s, ("call", "vec!", (("array", acc),))), ())
     return NotImplemented
